@@ -72,6 +72,12 @@ class Report:
     def note(self, s):
         self.notes.append(s)
 
+    def downgrade_all(self, reason):
+        """the analysis met library code it has no model for: nothing it concluded is a verdict (never an alarm)"""
+        self.obls = [(r, k, (None if st is False else st), (f'[not decided: {reason}] ' + d if st is False else d)) for (r, k, st, d) in self.obls]
+        self.violations = []
+        self.floor_downgrade = reason
+
     def finish(self):
         os.makedirs(os.path.join(EVID, 'replay'), exist_ok=True)
         known, _fixed = load_known()
